@@ -73,6 +73,7 @@ def _repo_head():
 
 def finish(prop, tier, seed, results, wall, write_evidence=True, verbose=False, mutated=False):
     known = load_known()
+    n_bounded_ob = [0]
     n_ob = n_proved = n_vcs = 0
     by_backend = {}
     solver_time = 0.0
@@ -85,10 +86,9 @@ def finish(prop, tier, seed, results, wall, write_evidence=True, verbose=False, 
     samples = []
     bounded = []
     units_summary = []
+    bounded_by = {}
     for u in results:
         assumptions.update(u.get("assumptions", []))
-        if u.get("bounded"):
-            bounded.append(u["bounded"])
         st = u["status"]
         units_summary.append({"unit": u["unit"], "status": st, "paths": u.get("paths"), "obligations": len(u["obligations"]),
                               "wall_s": round(u.get("wall_s", 0), 2)})
@@ -103,8 +103,18 @@ def finish(prop, tier, seed, results, wall, write_evidence=True, verbose=False, 
         for fn in u.get("inlined", []):
             if fn.startswith("ipv8"):
                 functions.add(fn)
+        is_bounded = bool(u.get("bound"))
+        if is_bounded:
+            bnd = bounded_by.setdefault((u["fn"], u["contract"]), {"function": u["fn"], "contract": u["contract"], "bound": u["bound"],
+                                                                 "units": 0, "obligations": 0, "discharged": 0, "label": "bounded"})
+            bnd["units"] += 1
         for ob in u["obligations"]:
-            n_ob += 1
+            if is_bounded:
+                bnd["obligations"] += 1
+                bnd["discharged"] += 1 if ob["status"] == "proved" else 0
+                n_bounded_ob[0] += 1
+            else:
+                n_ob += 1
             n_vcs += ob.get("vcs", 1)
             solver_time += ob.get("time_s", 0)
             for b, n in ob.get("backends", {}).items():
@@ -112,8 +122,9 @@ def finish(prop, tier, seed, results, wall, write_evidence=True, verbose=False, 
             if verbose and ob.get("time_s", 0) > 1.0:
                 print(f"    SLOW {ob['time_s']:.1f}s {ob['name']} {ob.get('backends')}")
             if ob["status"] == "proved":
-                n_proved += 1
-                if len(samples) < 6:
+                if not is_bounded:
+                    n_proved += 1
+                if len(samples) < 6 and not is_bounded:
                     samples.append({"obligation": ob["name"], "vcs": ob.get("vcs"), "clause": ob.get("info")})
             elif ob["status"] == "unknown":
                 undecided.append((ob["name"], ob.get("solver_output")))
@@ -146,10 +157,11 @@ def finish(prop, tier, seed, results, wall, write_evidence=True, verbose=False, 
             code = 3
         elif undecided:
             code = 2
+    bounded = list(bounded_by.values())
     if n_ob == 0 and code == 0:
         print(f"CHECKER-ERROR property={prop}: zero obligations generated")
         code = 3
-    print(f"[{prop}] tier={tier} units={len(results)} obligations={n_ob} discharged={n_proved} vcs={n_vcs} "
+    print(f"[{prop}] tier={tier} units={len(results)} obligations={n_ob} discharged={n_proved} bounded-obligations={n_bounded_ob[0]} vcs={n_vcs} "
           f"violations={len(violations)} known={len(known_hits)} undecided={len(undecided)} errors={len(errors)} "
           f"solver_time={solver_time:.1f}s wall={wall:.1f}s backends={by_backend}")
     if verbose:
